@@ -153,7 +153,9 @@ def run_histories(pid, harness, module, histories, variant="asan", nchunks=None,
             if out["infra"]:
                 stats["infra"].append(out["infra"])
             for c in out["crashes"]:
-                failures.append(Failure("CRASH", "crash rc=%d" % c["rc"], base0 + c["history"], c["step"], "?", c["stderr"]))
+                fl = Failure("CRASH", "crash rc=%d" % c["rc"], base0 + c["history"], c["step"], "?", c["stderr"])
+                fl.chunk0 = base0
+                failures.append(fl)
             for res in out["results"]:
                 stats["records"] += res.get("n", 0)
                 stats["drift"] += res.get("drift", [])
@@ -162,7 +164,9 @@ def run_histories(pid, harness, module, histories, variant="asan", nchunks=None,
                 # map exec index -> history
                 for f in res.get("fails", []):
                     hidx = base0 + f["_h"]
-                    failures.append(Failure(f["p"], f["w"], hidx, f["_step"], f.get("e", "?"), json.dumps(f)))
+                    fl = Failure(f["p"], f["w"], hidx, f["_step"], f.get("e", "?"), json.dumps(f))
+                    fl.chunk0 = base0          # first history of the process this one ran in (state may leak between them)
+                    failures.append(fl)
             stats["tlc_wall"] += out["tlc_wall"]
     if not keep:
         shutil.rmtree(workdir, ignore_errors=True)
